@@ -43,6 +43,52 @@ class RangeMachine(Machine):
             return any(is_pack_write_handle(self.K, a) for a in alts(self.K.kind(e.func.value, fr)))
         return False
 
+    def _key_source(self, v, node, cur, depth=0):
+        """'writer' (digest returned by the call that appended the bytes, with the configured hash type), 'prepass' (a separate
+        pass over the stream), 'copied' (taken from elsewhere, e.g. the source row in repack).  Mixed expressions (`a or b`,
+        `a if c else b`) are 'prepass' as soon as one operand is."""
+        fn = node.frame.fn
+        a = node.ast
+        if depth > 6 or v is None:
+            return 'copied'
+        if isinstance(v, ast.Call):
+            fname = norm(v.func)
+            if fname.endswith('_write_data_to_packfile'):
+                ht = next((k.value for k in v.keywords if k.arg == 'hash_type'), None)
+                if ht is not None and not (isinstance(ht, ast.Attribute) and ht.attr == 'hash_type') and not isinstance(ht, ast.Name):
+                    return 'prepass'  # the writer is (sometimes) told not to hash: its digest is not the key of the written bytes
+                if isinstance(ht, ast.Name):
+                    hv = last_assignment(ht.id, fn, a.lineno)
+                    if hv is not None and not (isinstance(hv, ast.Attribute) and hv.attr == 'hash_type'):
+                        return 'prepass'
+                return 'writer'
+            if fname.endswith('compute_hash_and_size'):
+                return 'prepass'
+            if isinstance(v.func, ast.Attribute) and v.func.attr == 'get' and v.args and isinstance(v.args[0], ast.Constant) and v.args[0].value == 'hashkey':
+                return cur  # re-reading the row's own earlier key keeps its source
+            return 'copied'
+        if isinstance(v, ast.Subscript) and isinstance(v.slice, ast.Constant) and v.slice.value == 'hashkey':
+            return cur
+        if isinstance(v, (ast.BoolOp, ast.IfExp)):
+            ops = v.values if isinstance(v, ast.BoolOp) else [v.body, v.orelse]
+            kinds_ = [self._key_source(o, node, cur, depth + 1) for o in ops]
+            if 'prepass' in kinds_:
+                return 'prepass'
+            if all(k == 'writer' for k in kinds_):
+                return 'writer'
+            return 'copied'
+        if isinstance(v, ast.Name):
+            src = last_assignment(v.id, fn, a.lineno)
+            if src is not None:
+                return self._key_source(src, node, cur, depth + 1)
+            # a name unpacked from a call's result in this function?
+            for x in walk_local(fn.node):
+                if isinstance(x, ast.Assign) and isinstance(x.targets[0], ast.Tuple) and isinstance(x.value, ast.Call) \
+                        and any(isinstance(e2, ast.Name) and e2.id == v.id for e2 in x.targets[0].elts):
+                    return self._key_source(x.value, node, cur, depth + 1)
+            return 'copied'
+        return 'copied'
+
     def transfer(self, node, st, g):
         off, wrote, ln, ksrc = st
         viol = []
@@ -54,25 +100,7 @@ class RangeMachine(Machine):
             tg = a.targets[0]
             elts = tg.elts if isinstance(tg, ast.Tuple) else [tg]
             if any(isinstance(t, ast.Subscript) and isinstance(t.slice, ast.Constant) and t.slice.value == 'hashkey' for t in elts):
-                v = a.value
-                fname = norm(v.func) if isinstance(v, ast.Call) else ''
-                if fname.endswith('_write_data_to_packfile'):
-                    ksrc = 'writer'
-                elif fname.endswith('compute_hash_and_size'):
-                    ksrc = 'prepass'
-                elif isinstance(v, ast.Name):
-                    src = last_assignment(v.id, node.frame.fn, a.lineno)
-                    if isinstance(src, ast.Call) and norm(src.func).endswith('_write_data_to_packfile'):
-                        ksrc = 'writer'
-                    elif v.id in [n2.id for n2 in ast.walk(a) if False]:
-                        pass
-                    else:
-                        # a name unpacked from the writer's result in this function?
-                        unp = [x for x in walk_local(node.frame.fn.node) if isinstance(x, ast.Assign) and isinstance(x.targets[0], ast.Tuple) and isinstance(x.value, ast.Call)
-                               and norm(x.value.func).endswith('_write_data_to_packfile') and any(isinstance(e2, ast.Name) and e2.id == v.id for e2 in x.targets[0].elts)]
-                        ksrc = 'writer' if unp else 'copied'
-                else:
-                    ksrc = 'copied'
+                ksrc = self._key_source(a.value, node, ksrc)
         if node.frame is self.top and node.kind == 'stmt' and isinstance(a, ast.Assign) and isinstance(a.targets[0], ast.Subscript) \
                 and isinstance(a.targets[0].slice, ast.Constant):
             key = a.targets[0].slice.value
